@@ -16,7 +16,7 @@ sequences over <= 4 (quick) / <= 5 (thorough) keys for keyed lists and leaf-list
 import json, os
 from vlib import treegen as tg, paths
 
-LEAN_TARGETS = ["LyModel.Props.C06", "LyModel.Props.C06UO"]
+LEAN_TARGETS = ["LyModel.Props.C06", "LyModel.Props.C06UO", "LyModel.Props.C06UOList"]
 AUDIT = "Audit/C06.lean"
 HARNESS = "api_diff"
 COMP = "diff"
@@ -425,21 +425,23 @@ def process(cx, schemas, cases, tag, laws=True, apply3=True, law_mod=1):
         eval_law(cx, c, o, rep.get(i, ["err", "NoReply"]))
 
 
-def core_ops_of_diff(D):
-    """libyang's diff of a flat user-ordered leaf-list pair, rendered like LyModel.Diff.UOB.renderOp"""
+def core_ops_of_diff(D, keyed=False):
+    """libyang's diff of a flat user-ordered leaf-list / key-only single-key list pair, rendered like
+    LyModel.Diff.UOB.renderOp / renderOpK (identity = value / key value, anchor = yang:value / yang:key)"""
     out = []
     for n in D:
         op = meta(n, "operation")
-        anchor = meta(n, "value")
+        anchor = meta(n, "key" if keyed else "value")
         a = "~" if not anchor else tg.hx(anchor)
+        ident = tg.hx(n.kids[0].val if keyed and n.kids else n.val)
         if op == b"delete":
-            out.append("d:" + tg.hx(n.val))
+            out.append("d:" + ident)
         elif op == b"create":
-            out.append("c:%s:%s" % (tg.hx(n.val), a))
+            out.append("c:%s:%s" % (ident, a))
         elif op == b"replace":
-            out.append("m:%s:%s" % (tg.hx(n.val), a))
+            out.append("m:%s:%s" % (ident, a))
         else:
-            out.append("?:" + tg.hx(n.val))
+            out.append("?:" + ident)
     return out
 
 
@@ -456,8 +458,8 @@ def theorem_cases(cx, head, cases, tag):
         A, B = tg.untok(c.s, c.a), tg.untok(c.s, c.b)
         tops = A + B
         # cheap necessary condition (the driver decides): all top-level nodes are instances of one leaf-list
-        if not tops or tops[0].sn.kind != "leaflist" or any(n.sn is not tops[0].sn for n in tops):
-            cx.dist["thm:apply_diff_userord_flat_ll:hypotheses-fail"] += 1
+        if not tops or tops[0].sn.kind not in ("leaflist", "list") or any(n.sn is not tops[0].sn for n in tops):
+            cx.dist["thm:apply_diff_userord_flat:hypotheses-fail"] += 1
             continue
         i = "h%s%d" % (tag, k)
         lines.append("%s %s uohyp %s %s %s" % (i, COMP, tg.hx(c.s.dsl()), c.a, c.b))
@@ -472,16 +474,17 @@ def theorem_cases(cx, head, cases, tag):
         if r[0] != "ok":
             cx.disagree(COMP, l, ["ok", "?"], r)
             continue
-        if r[1] != "1":
-            cx.dist["thm:apply_diff_userord_flat_ll:hypotheses-fail"] += 1
+        if r[1] not in ("1", "2"):
+            cx.dist["thm:apply_diff_userord_flat:hypotheses-fail"] += 1
             continue
-        cx.dist["thm:apply_diff_userord_flat_ll:hypotheses-hold"] += 1
-        c.feat[1] = sorted(set(c.feat.get(1, [])) | {"thm-userord-flat-ll"})
+        thm = "ll" if r[1] == "1" else "kl"         # flatLL (leaf-list) / flatKL (single-key list, key-only instances)
+        cx.dist["thm:apply_diff_userord_flat_%s:hypotheses-hold" % thm] += 1
+        c.feat[1] = sorted(set(c.feat.get(1, [])) | {"thm-userord-flat-" + thm})
         core = r[3:]
-        impl = core_ops_of_diff(c.D[1])
-        cx.count(("uocore", c.s.name, c.a, c.b), bool(core), "diff:uocore:" + ("ops" if core else "empty"))
+        impl = core_ops_of_diff(c.D[1], keyed=(thm == "kl"))
+        cx.count(("uocore", c.s.name, c.a, c.b), bool(core), "diff:uocore-%s:%s" % (thm, "ops" if core else "empty"))
         if impl != core:
-            cx.disagree(COMP, l, ["ok", "1", r[2]] + impl, r)
+            cx.disagree(COMP, l, ["ok", r[1], r[2]] + impl, r)
 
 
 def differential(cx, head, lines, kind, nontrivial, skip=None):
@@ -596,6 +599,16 @@ def exhaustive(cx):
         total += len(cases)
         for lo in range(0, len(cases), 6000):
             process(cx, [s], cases[lo:lo + 6000], tag="xllonly%d.%d" % (nk, lo), laws=True, apply3=False, law_mod=3 if nk >= 5 else 1)
+    # the class of Props.C06UO.apply_diff_userord_flat_kl: a module whose only node is a single-key user-ordered list, key-only
+    s = tg.Schema("uoklonly", [tg.SNode("list", "ul", keys=["k"], userord=True, kids=[tg.SNode("leaf", "k", ty=tg.Ty("string"), iskey=True)])])
+    for nk, mod in (((5, 4), (4, 1)) if thorough else ((4, 4), (3, 1))):
+        seqs = tg.all_nodup_seqs(nk)
+        cases = [Case(s, [tg.DN(s.top[0], None, [tg.DN(s.top[0].kids[0], vals[k])]) for k in x],
+                      [tg.DN(s.top[0], None, [tg.DN(s.top[0].kids[0], vals[k])]) for k in y], "userord-klonly")
+                 for ia, x in enumerate(seqs) for ib, y in enumerate(seqs) if mod == 1 or (ia * 7 + ib) % mod == 0]
+        total += len(cases)
+        for lo in range(0, len(cases), 6000):
+            process(cx, [s], cases[lo:lo + 6000], tag="xklonly%d.%d" % (nk, lo), laws=True, apply3=False, law_mod=3 if nk >= 5 else 1)
     cx.exhaustive = True
     cx.notes.append("exhaustive: %d ordered pairs of duplicate-free user-ordered sequences; complete at the top level for %s"
                     % (total, ", ".join(complete)))
